@@ -243,10 +243,31 @@ def exec_procs(kind, files, args, requests, nproc, cnt):
         if kind == "pdf" and dt.date.today() != day0:
             cnt["pdf_runs_across_midnight(skipped)"] += 1
             return [], None
+        if kind in ("plain", "json", "convert") and outs and outs[0][0] == 0:
+            # the same command writing to --output: onto a fresh path and onto a path that already holds a longer file
+            sb.write("stale.out", b"x" * (len(outs[0][1]) + 4096))
+            ra = sb.run(args + ["--output", "fresh.out"])
+            rb = sb.run(args + ["--output", "stale.out"])
+            try:
+                fa = open(f"{sb.cwd}/fresh.out", "rb").read()
+                fb = open(f"{sb.cwd}/stale.out", "rb").read()
+            except OSError:
+                fa, fb = b"", b"?"
+            for rx, rep in MASKS:
+                fa, fb = rx.sub(rep, fa), rx.sub(rep, fb)
+            cnt["output_file_pairs"] += 1
+            if ra["exit"] == 0 and rb["exit"] == 0 and fa != fb:
+                viols.append({"clause": "output-file-depends-on-what-was-there", "signature": "output-file-depends-on-previous-content:" + kind,
+                              "detail": f"`--output` onto a fresh path wrote {len(fa)} bytes, onto an existing longer file {len(fb)} bytes"})
     distinct = {hashlib.sha256(repr(o[:2]).encode()).hexdigest() for o in outs}
+    distinct_err = {hashlib.sha256(repr(o[2]).encode()).hexdigest() for o in outs if len(o) > 2}
     if len(distinct) > 1:
         viols.append({"clause": "output-differs-between-processes", "signature": "output-differs-between-processes:" + kind,
                       "detail": f"{len(distinct)} distinct outputs over {nproc} runs of `{' '.join(args or ['report --format pdf'])}`"})
+    elif len(distinct_err) > 1:
+        # warnings and messages on stderr are output too
+        viols.append({"clause": "output-differs-between-processes", "signature": "output-differs-between-processes:" + kind + ":stderr",
+                      "detail": f"{len(distinct_err)} distinct stderr texts over {nproc} runs of `{' '.join(args or [])}`"})
     elif outs[0][0] != 0:
         cnt["inputs_rejected_" + kind] += 1
     else:
@@ -360,7 +381,7 @@ def finalize(total, tier, seed):
 THRESHOLDS = {"inputs": 100, "failpoint_permutations": 800, "drains_holdings_with_2plus_items": 100,
               "drains_tax_years_with_2plus_items": 100, "drains_disposals_with_2plus_items": 500,
               "process_runs_plain": 90, "process_runs_json": 90, "process_runs_parse": 40, "process_runs_convert": 40,
-              "process_runs_pdf": 40, "process_runs_mcp": 12, "inputs_given_as_three_files": 3}
+              "process_runs_pdf": 40, "process_runs_mcp": 12, "inputs_given_as_three_files": 3, "output_file_pairs": 10}
 RULE = ("ledgers with 4-50 securities, many disposals on one date and 3-15 tax years: (a) hooked library runs "
         "recording the pre-sort order of each HashMap drain and re-run under 8 seeded permutations of every drain (H3 "
         "failpoint) - reports, text and JSON must be identical and canonically ordered; (b) 16 fresh processes per "
